@@ -5,6 +5,7 @@
      {a:"b", line, vars, out, occ}           one statement boundary (hook H1): what is visible there
                                              (line of the next statement, variable values, numbers printed by
                                              the statement just executed) and the trap ids injected right after
+     {a:"sr"}                                suspend + resume happened at this boundary (C40)
      {a:"end", k, code, line, vars, out}     how the run finished
    One event = one TLC step.  A boundary event must equal the observation of the specification state; then
    the specification executes one statement (after applying the injected occurrences and dispatching traps in
@@ -52,6 +53,9 @@ TNext ==
        CASE e.a = "run" -> /\ ss' = {I!Start(Header.progs[e.pi])}
                            /\ dead' = FALSE /\ viol' = viol
          [] dead -> UNCHANGED <<ss, dead, viol>>
+         \* C40: the session was suspended to a state file and resumed from it between two statements:
+         \* a stuttering step of the abstract machine - whatever follows must continue as if nothing happened
+         [] e.a = "sr" -> UNCHANGED <<ss, dead, viol>>
          [] e.a = "b" ->
               LET good == {s \in ss : BoundaryClause(s, e) = "ok"} IN
               IF good = {}
